@@ -49,7 +49,7 @@ def generated(ctx, n, deviations=(), prefix="w", **kw):
 def tokens(ctx, cases):
     """tokens of every file, from the REAL lexer (harness mode `toks`)"""
     texts = [t for c in cases for _, t in c.files]
-    outs = ctx.run_harness("toks", ["toks " + core.esc(t) for t in texts])
+    outs = run_lines([core.HARNESS_BIN, "toks"], ["toks " + core.esc(t) for t in texts], chunk=400)
     res, k = [], 0
     for c in cases:
         per = []
@@ -73,6 +73,47 @@ def lines(case, toks, kinds=None):
     return " ".join(hw + q), " ".join(dw + q), qs
 
 
+def run_lines(argv, lines, chunk=60, par=12, timeout=1800):
+    """one process per chunk of workspaces, `par` at a time.  Workspace lines are heavy (whole texts,
+    hundreds of requests each), so chunks are small and every process is short-lived.  A chunk whose
+    process died without output (killed from outside, crashed) is re-run once line by line, so that
+    only the offending case keeps the `<no-output …>` mark — a deterministic crash is still reported."""
+    import subprocess
+    from concurrent.futures import ThreadPoolExecutor
+
+    def work(chunk_lines):
+        try:
+            p = subprocess.run(argv, input="\n".join(chunk_lines) + "\n", capture_output=True, text=True, timeout=timeout)
+            out, rc = p.stdout, p.returncode
+        except subprocess.TimeoutExpired as e:
+            out, rc = (e.stdout or ""), "timeout"
+            if isinstance(out, bytes):
+                out = out.decode(errors="replace")
+        ol = out.split("\n")
+        if ol and ol[-1] == "":
+            ol.pop()
+        while len(ol) < len(chunk_lines):
+            ol.append("<no-output rc=%s>" % rc)
+        return ol[:len(chunk_lines)]
+
+    chunks = [lines[i:i + chunk] for i in range(0, len(lines), chunk)]
+    with ThreadPoolExecutor(max_workers=par) as ex:
+        res = list(ex.map(work, chunks))
+    out = [o for r in res for o in r]
+    missing = [i for i, o in enumerate(out) if o.startswith("<no-output")]
+    for i in missing:
+        out[i] = work([lines[i]])[0]
+    return out
+
+
+def file_words(case, toks):
+    """the `F <stem> <n> <tokens…>` part of a driver line"""
+    w = []
+    for (stem, _), tk in zip(case.files, toks):
+        w += ["F", core.esc(stem), str(len(tk))] + tk
+    return w
+
+
 def run(ctx, cases, kinds=None, model=True):
     """-> list of (case, queries, impl answers, model answers)"""
     toks = tokens(ctx, cases)
@@ -84,8 +125,8 @@ def run(ctx, cases, kinds=None, model=True):
         hl.append(h)
         dl.append(d)
         qss.append(qs)
-    impl = ctx.run_harness("scope", hl)
-    mod = ctx.run_driver(dl) if model else [None] * len(hl)
+    impl = run_lines([core.HARNESS_BIN, "scope"], hl)
+    mod = run_lines([core.DRIVER_BIN], dl) if model else [None] * len(hl)
     out = []
     for c, qs, a, b, h, d in zip(cases, qss, impl, mod, hl, dl):
         aw = a.split(" ") if qs else []
